@@ -18,6 +18,7 @@ def run(tier, seed, update_lock=False):
         R.prove(u)
     for u in units:
         R.canary_check(u)
+    R.lemma('Sums.lean', 'finite sums: row total of non-negative entries >= each entry (ghost axiom of the Prinz contract); prefix sums of non-negative block widths are monotone, bounded by the total, every position lies in one block (trusted facts of the concatenation primitives)')
     R.bounded('C12.py', 'run-time contracts on the real _prinz_mle_py, the compiled libmsm kernel and builders.mle',
               'strongly connected count matrices with 2..4 states: all 2x2 over {0,1,3}, strided 3x3 over {0,1,4}, seeded integer / real matrices, scaled counts; both implementations', timeout=3000)
     R.report_known('C12.py')
@@ -27,6 +28,6 @@ def run(tier, seed, update_lock=False):
                  {'clause': 'Prinz self-consistency equations at the returned point; likelihood >= transpose estimate and >= random reversible competitors', 'status': 'bounded (tolerance 1e-6 relative)'},
                  {'clause': 'compiled and pure-Python implementations agree', 'status': 'update step: proved equal by the shared contract; whole runs: bounded (the convergence tests use ln and log10 respectively)'},
                  {'clause': 'global optimality / convergence of the floating-point fixed-point iteration', 'status': 'not decidable by this technique (DESIGN 9)'}]
-    R.assumptions += ['machine floating point treated as real arithmetic in the Prinz step proof; sqrt axiomatised by sqrt(x)^2 = x, sqrt(x) >= 0 for x >= 0; row total >= entry for non-negative rows (Finset.single_le_sum) assumed as a ghost axiom',
+    R.assumptions += ['machine floating point treated as real arithmetic in the Prinz step proof; sqrt axiomatised by sqrt(x)^2 = x, sqrt(x) >= 0 for x >= 0; row total >= entry for non-negative rows is a ghost axiom whose statement is proved in lemmas/Sums.lean (entry_le_row_total)',
                       'absence of AssertionError / ZeroDivisionError inside the iteration is NOT proved (may_raise)']
     return R.finish('Deductive: the Prinz update step of both implementations. Bounded stand-in for termination, the fixed point and likelihood comparisons.', update_lock=update_lock)
